@@ -23,7 +23,7 @@ RULE = (
 ASSUMPTIONS = [
     "freshness is decided as 'the registered RNG / key generator is consulted once per file / per ECC block and its output is what is used'; entropy of os.urandom is out of scope",
 ]
-REQUIRED_CLASSES = ["agree.blocks>=2", "agree.keyless", "agree.ecc", "splice.body=K1", "splice.body=K2", "splice.ecc", "passthrough.unopened>=1", "passthrough.unopened-ends00", "history.writes>=2", "history.keyless>=2"]
+REQUIRED_CLASSES = ["agree.blocks>=2", "agree.keyless", "agree.ecc", "splice.body=K1", "splice.body=K2", "splice.ecc", "splice.same-tag", "passthrough.unopened>=1", "passthrough.unopened-ends00", "history.writes>=2", "history.keyless>=2"]
 
 B2 = sut.B2
 
@@ -125,6 +125,8 @@ def check_splice(case, rec):
     rec.cls("splice.body=K%d" % case["body"])
     if any(b["kind"] == "ecc" for b in blocks):
         rec.cls("splice.ecc")
+    if len([b for b in blocks if b["kind"] == "ecc"]) >= 2:
+        rec.cls("splice.same-tag")
     rec.nt()
     hb = [_wrap(blocks[0], k1, case["eph"])] + [_wrap(b, k2, case["eph"] + 1) for b in blocks[1:]]
     comps = [dict(desc=[(0xC3, b"\x02")], blob=case["blob"], actual_len=len(case["blob"]), enc=False)]
@@ -297,6 +299,12 @@ def strat_agree(tier):
 @st.composite
 def strat_splice(draw, tier="quick"):
     blocks = draw(S.auth_blocks(min_size=2, allow_default_ecc=False))
+    if draw(st.integers(0, 2)) == 0:
+        # two openable blocks of the SAME tag (ECC blocks for different key selectors) wrapping different keys, optionally with others around them
+        s1 = draw(st.integers(0, 3))
+        two = [dict(kind="ecc", sel=s1, priv=draw(S.ecc_priv())), dict(kind="ecc", sel=(s1 + draw(st.integers(1, 3))) % 4, priv=draw(S.ecc_priv()))]
+        others = [b for b in blocks if b["kind"] != "ecc"][: draw(st.integers(0, 1))]
+        blocks = two + others if draw(st.booleans()) else others + two
     k1, k2 = draw(_key16), draw(_key16)
     if k1 == k2:
         k2 = bytes([k2[0] ^ 1]) + k2[1:]
